@@ -327,7 +327,12 @@ def restart_task(seed, run):
         blob = pickle.dumps(o, protocol=proto)
     except Exception as e:  # noqa: BLE001
         return {"run": run, "k": k, "program": program, "st": st, "pickle_error": type(e).__name__ + ": " + str(e)[:200]}
-    dependents = [i for i in range(len(program)) if i == k or k in lang.cone(program, i)]
+    def _mut(i):
+        v = env.heap[i]
+        return isinstance(v, MutableAlias) or (is_object_slot(v) and getattr(v, "__dict__", {}).get("immutable", True) is False)
+
+    # mutable-mode chains are judged in-process only (their slots alias one evolving object)
+    dependents = [i for i in range(len(program)) if (i == k or k in lang.cone(program, i)) and not _mut(i)]
     refs = {}
     for i in dependents:
         refs[i] = engine.reference_obs(program, i, st, inprocess=False)
